@@ -191,9 +191,6 @@ def instantiate (s : State) (k : Kind) (sender : Addr) (funds : List Coin) (name
 
 def strOf (str : String) : List Nat := str.toList.map Char.toNat
 
-def V_3_0_0 : Semver.Version := ⟨3, 0, 0⟩
-def V_3_1_0 : Semver.Version := ⟨3, 1, 0⟩
-
 /-- `cw721_base::upgrades::v0_17::migrate` (through `sg721_base::upgrades::v3_0_0::upgrade`): load and remove the 0.16
 `minter` item, `cw_ownable::initialize_owner(Some(minter))` — ownership is REPLACED, a pending transfer is dropped -/
 def upgradeOwnership (c : Coll) : Except Err Coll :=
@@ -218,10 +215,10 @@ def migrateUpdatable (c : Coll) (now : Nat) : Except Err Coll :=
   else if v = code ∧ c.core.kind = .updatable then .error .version
   else
     let c1 : Coll := if c.core.kind = .base then { c with core := { c.core with frozenMeta := false, updEnabled := false } } else c
-    match (if v < V_3_0_0 then upgradeOwnership c1 else .ok c1) with
+    match (if v < Sg721.V_3_0_0 then upgradeOwnership c1 else .ok c1) with
     | .error e => .error e
     | .ok c2 =>
-      match (if v < V_3_1_0 then upgradeRoyalty now c2 else .ok c2) with
+      match (if v < Sg721.V_3_1_0 then upgradeRoyalty now c2 else .ok c2) with
       | .error e => .error e
       | .ok c3 => .ok { c3 with core := { c3.core with kind := .updatable, ver := code } }
 
@@ -234,7 +231,7 @@ def migrateOnchain (c : Coll) : Except Err Coll :=
   else if code = v then .ok c
   else
     let c1 : Coll := { c with core := { c.core with ver := Sg721.ONCHAIN_TO } }
-    if v < V_3_0_0 then upgradeOwnership c1 else .ok c1
+    if v < Sg721.V_3_0_0 then upgradeOwnership c1 else .ok c1
 
 /-- sg721-nt `entry::migrate` on an sg721-nt collection: three compile-time constants compared AS STRINGS; the cw2 record
 is never read -/
@@ -398,8 +395,9 @@ def qTokens (c : Coll) (owner : Addr) (after : Option Nat) (limit : Option Nat) 
 /-- `Minter {}` -/
 def qMinter (c : Coll) : Option Addr := c.core.ownership.owner
 
-/-- `Ownership {}` -/
-def qOwnership (c : Coll) : Ownership := c.core.ownership
+/-- `Ownership {}` (`cw_ownable_query`): sg721-updatable's own `QueryMsg` enum lacks the variant -/
+def qOwnership (c : Coll) : Except Err Ownership :=
+  if c.core.kind = .updatable then .error .invalid else .ok c.core.ownership
 
 /-- `CollectionInfo {}` -/
 def qCollectionInfo (c : Coll) : Info := c.core.info
